@@ -47,6 +47,9 @@ func runMutantChild(prop, repo, name string) int {
 	}
 	c := &Ctx{P: p, R: newReport(prop, "selftest"), Tier: "selftest"}
 	check(c)
+	if extra := extraRules[prop]; extra != nil {
+		extra(c)
+	}
 	// floors count too
 	counts := map[string]int{}
 	for _, ob := range c.R.obs {
@@ -82,6 +85,9 @@ func thoroughExtras(c *Ctx, check func(*Ctx), prop, repo, verifDir string) {
 	} else {
 		c2 := &Ctx{P: p2, R: newReport(prop, "thorough-386"), Tier: "thorough"}
 		check(c2)
+		if extra := extraRules[prop]; extra != nil {
+			extra(c2)
+		}
 		bad := 0
 		for _, ob := range c2.R.obs {
 			if ob.st != Discharged {
